@@ -1629,6 +1629,194 @@ pub mod vudp {
 }
 
 // ---------------------------------------------------------------------------------------
+// Live sessions (C16, C17): real tunnel sessions over an in-memory transport with the forwarder
+// the settings select (no scripted forwarder), driven step by step by a polling client
+
+pub mod vlive {
+    use super::vtunnel::Transport;
+    use crate::core::Core;
+    use crate::tls_demultiplexer::Protocol;
+    use crate::{http1_codec, http2_codec, log_utils, metrics};
+    use bytes::Bytes;
+    use futures::FutureExt;
+    use std::io;
+    use tokio::io::{AsyncReadExt, AsyncWriteExt};
+
+    pub struct H2Session {
+        send: Option<h2::client::SendRequest<Bytes>>,
+        driver: tokio::task::JoinHandle<()>,
+        tunnel: tokio::task::JoinHandle<()>,
+    }
+
+    pub struct H2Stream {
+        resp: Option<h2::client::ResponseFuture>,
+        tx: h2::SendStream<Bytes>,
+        rx: Option<h2::RecvStream>,
+        /// response status once the head arrived
+        pub status: Option<u16>,
+        pub headers: Vec<(String, String)>,
+        pub received: Vec<u8>,
+        /// the response body ended (END_STREAM)
+        pub ended: bool,
+        /// the stream failed (reset, connection gone)
+        pub failed: bool,
+    }
+
+    pub async fn open_h2(core: &Core, sni: &str) -> Option<H2Session> {
+        let (client, server) = tokio::io::duplex(1 << 22);
+        let codec = http2_codec::Http2Codec::new(core.verif_settings(), Transport(server), log_utils::IdChain::empty()).ok()?;
+        let tunnel = core.verif_spawn_tunnel(Protocol::Http2, Box::new(codec), sni.to_string(), None);
+        let (send, conn) = h2::client::handshake(client).await.ok()?;
+        let driver = tokio::spawn(async move {
+            let _ = conn.await;
+        });
+        Some(H2Session { send: Some(send), driver, tunnel })
+    }
+
+    impl H2Session {
+        /// send a request head; `target` is the authority for CONNECT, an absolute URI otherwise
+        pub async fn request(&mut self, method: &str, target: &str, headers: &[(String, String)], end: bool) -> Option<H2Stream> {
+            let mut b = http::Request::builder().method(method).uri(target);
+            for (n, v) in headers {
+                b = b.header(n.as_str(), v.as_str());
+            }
+            let req = b.body(()).ok()?;
+            let mut ready = self.send.clone()?.ready().await.ok()?;
+            let (resp, tx) = ready.send_request(req, end).ok()?;
+            Some(H2Stream {
+                resp: Some(resp),
+                tx,
+                rx: None,
+                status: None,
+                headers: vec![],
+                received: vec![],
+                ended: false,
+                failed: false,
+            })
+        }
+
+        /// the server side of the session (`on_tunnel_request`) has returned
+        pub fn server_ended(&self) -> bool {
+            self.tunnel.is_finished()
+        }
+
+        /// the client drops the connection
+        pub fn close(&mut self) {
+            self.send = None;
+            self.driver.abort();
+        }
+    }
+
+    impl H2Stream {
+        /// take whatever has arrived, without waiting
+        pub fn poll(&mut self) {
+            if let Some(f) = self.resp.as_mut() {
+                match f.now_or_never() {
+                    None => {}
+                    Some(Ok(r)) => {
+                        self.resp = None;
+                        self.status = Some(r.status().as_u16());
+                        for (n, v) in r.headers() {
+                            self.headers.push((n.as_str().to_string(), String::from_utf8_lossy(v.as_bytes()).to_string()));
+                        }
+                        self.rx = Some(r.into_body());
+                    }
+                    Some(Err(_)) => {
+                        self.resp = None;
+                        self.failed = true;
+                    }
+                }
+            }
+            if let Some(rx) = self.rx.as_mut() {
+                loop {
+                    match rx.data().now_or_never() {
+                        None => break,
+                        Some(None) => {
+                            self.ended = true;
+                            self.rx = None;
+                            break;
+                        }
+                        Some(Some(Ok(chunk))) => {
+                            let _ = rx.flow_control().release_capacity(chunk.len());
+                            self.received.extend_from_slice(&chunk);
+                        }
+                        Some(Some(Err(_))) => {
+                            self.failed = true;
+                            self.rx = None;
+                            break;
+                        }
+                    }
+                }
+            }
+        }
+
+        /// queue body bytes (h2 holds them until the flow-control window admits them)
+        pub fn send(&mut self, data: &[u8], end: bool) -> bool {
+            self.tx.send_data(Bytes::copy_from_slice(data), end).is_ok()
+        }
+
+        pub fn reset(&mut self) {
+            self.tx.send_reset(h2::Reason::CANCEL);
+        }
+    }
+
+    pub struct H1Session {
+        wr: Option<tokio::io::WriteHalf<tokio::io::DuplexStream>>,
+        rd: tokio::io::ReadHalf<tokio::io::DuplexStream>,
+        tunnel: tokio::task::JoinHandle<()>,
+        pub received: Vec<u8>,
+        /// the server closed its side
+        pub eof: bool,
+    }
+
+    pub fn open_h1(core: &Core, sni: &str) -> H1Session {
+        let (client, server) = tokio::io::duplex(1 << 22);
+        let codec = http1_codec::Http1Codec::new(core.verif_settings(), Transport(server), log_utils::IdChain::empty());
+        let tunnel = core.verif_spawn_tunnel(Protocol::Http1, Box::new(codec), sni.to_string(), None);
+        let (rd, wr) = tokio::io::split(client);
+        H1Session { wr: Some(wr), rd, tunnel, received: vec![], eof: false }
+    }
+
+    impl H1Session {
+        /// raw bytes towards the endpoint (the in-memory pipe takes up to 4 MiB without blocking)
+        pub fn send(&mut self, data: &[u8]) -> bool {
+            match self.wr.as_mut() {
+                Some(w) => matches!(w.write_all(data).now_or_never(), Some(Ok(()))),
+                None => false,
+            }
+        }
+
+        pub fn poll(&mut self) {
+            let mut buf = [0u8; 16384];
+            while !self.eof {
+                match self.rd.read(&mut buf).now_or_never() {
+                    None => break,
+                    Some(Ok(0)) | Some(Err(_)) => self.eof = true,
+                    Some(Ok(n)) => self.received.extend_from_slice(&buf[..n]),
+                }
+            }
+        }
+
+        /// half-close: the client will send nothing more
+        pub fn shutdown_write(&mut self) {
+            if let Some(mut w) = self.wr.take() {
+                let _ = w.shutdown().now_or_never();
+            }
+        }
+
+        pub fn server_ended(&self) -> bool {
+            self.tunnel.is_finished()
+        }
+    }
+
+    /// the real metrics listener (`metrics::listen`) of this core, as its own task
+    pub fn spawn_metrics_listener(core: &Core) -> tokio::task::JoinHandle<io::Result<()>> {
+        let context = core.verif_context();
+        tokio::spawn(async move { metrics::listen(context, log_utils::IdChain::empty()).await })
+    }
+}
+
+// ---------------------------------------------------------------------------------------
 // Shutdown (C19): hand-polled participants
 
 pub mod vshutdown {
